@@ -2,9 +2,9 @@
 request / entity store accept exactly the completions (C14)."""
 from vx.assemble import Fn, Type, Raw, Loop, ClosureRw, FnRw, cmp_rw
 
-PROPERTIES = ['C14']
+PROPERTIES = ['C14', 'C15']
 HEADER = '#![feature(allocator_api)]'
-STDMODEL = ['iter.rs', 'hash.rs', 'btree.rs', 'std.rs']
+STDMODEL = ['iter.rs', 'hash.rs', 'hash_entry.rs', 'btree.rs', 'std.rs']
 REQ = 'cedar-policy-core/src/tpe/request.rs'
 ENT = 'cedar-policy-core/src/tpe/entities.rs'
 AREQ = 'cedar-policy-core/src/ast/request.rs'
@@ -54,5 +54,12 @@ ITEMS = [
            ('snapshot', 'self.entities.order_ok() && it_1.snapshot@.remaining().len() == self.entities.key_order().len() && forall|i: int| 0 <= i < self.entities.key_order().len() ==> *(#[trigger] it_1.snapshot@.remaining()[i]).0 == self.entities.key_order()[i] && *it_1.snapshot@.remaining()[i].1 == self.entities@[self.entities.key_order()[i]]'),
            ('done', 'forall|i: int| 0 <= i < it_1.index@ ==> concrete.spec_get(#[trigger] self.entities.key_order()[i]) is Some && entity_consistent(self.entities@[self.entities.key_order()[i]], concrete.spec_get(self.entities.key_order()[i])->Some_0)'),
        ])}),
+    Fn(ENT, 'impl PartialEntities > fn add_entity_trusted', name='PartialEntities::add_entity_trusted', wrap='impl PartialEntities', props=['C15'],
+       rewrites=[(r'Entry::', 'hash_map::Entry::', None), (r'(?s)Duplicate \{\s*euid: e\.key\(\)\.clone\(\),\s*\}\s*\.into\(\)', 'vx_dup(e.key().clone())', 1)],
+       ensures=[('ok_iff', 'r is Ok <==> !old(self).entities@.contains_key(uid)'),
+                ('added', 'r is Ok ==> final(self).entities@ == old(self).entities@.insert(uid, entity)'),
+                ('unchanged_on_error', 'r is Err ==> final(self).entities@ == old(self).entities@')]),
+    Fn(ENT, 'impl PartialEntities > fn contains_entity', name='PartialEntities::contains_entity', wrap='impl PartialEntities', props=['C15'],
+       ensures=[('known', 'r == self.entities@.contains_key(*euid)')]),
 ]
 CANARIES = ['PartialRequest::check_consistency', 'PartialEntities::check_consistency']
